@@ -1,6 +1,7 @@
 import SJ.Proofs.StreamSources
 import SJ.Proofs.RawNestedTop
 import SJ.Proofs.Utf8Text
+import SJ.Proofs.RawMap
 /-!
 # C09 helper lemmas: raw captures do not depend on the input source
 
@@ -198,5 +199,61 @@ theorem captured_of_valid (env env' : SJ.Model.Typed.Env) (w₀ inner w₃ : Byt
   refine ⟨⟨t, hd⟩, fun _ => ?_⟩
   obtain ⟨pre, post, rfl⟩ := inner_mem_split hin c hc
   exact derives_valid_in_context hd (w₀ ++ [0x5b] ++ pre) (post ++ [0x5d] ++ w₃) (by simpa [List.append_assoc] using hv)
+
+/-! ## object values -/
+
+open SJ.Proofs.RawMap SJ.Proofs.RawKey SJ.Spec.Grammar in
+theorem mtail_mem_split {tail : Bytes} {ms : List Mem} (h : MTail tail ms) :
+    ∀ m ∈ ms, (∃ pre post, tail = pre ++ strBytes m.1 ++ post) ∧ (∃ pre post, tail = pre ++ m.2.2 ++ post) := by
+  induction h with
+  | nil w _ => intro m hm; simp at hm
+  | cons w₁ w₂ k s w₃ w₄ c rest ms _ _ _ _ _ ih =>
+    intro m hm
+    simp only [List.mem_cons] at hm
+    rcases hm with rfl | hm
+    · exact ⟨⟨w₁ ++ [0x2c] ++ w₂, w₃ ++ [0x3a] ++ w₄ ++ c ++ rest, by simp⟩,
+        ⟨w₁ ++ [0x2c] ++ w₂ ++ strBytes k ++ w₃ ++ [0x3a] ++ w₄, rest, by simp⟩⟩
+    · obtain ⟨⟨p1, q1, h1⟩, ⟨p2, q2, h2⟩⟩ := ih m hm
+      refine ⟨⟨w₁ ++ [0x2c] ++ w₂ ++ strBytes k ++ w₃ ++ [0x3a] ++ w₄ ++ c ++ p1, q1, ?_⟩,
+        ⟨w₁ ++ [0x2c] ++ w₂ ++ strBytes k ++ w₃ ++ [0x3a] ++ w₄ ++ c ++ p2, q2, ?_⟩⟩
+      · rw [h1]; simp
+      · rw [h2]; simp
+
+open SJ.Proofs.RawMap SJ.Proofs.RawKey SJ.Spec.Grammar in
+theorem minner_mem_split {inner : Bytes} {ms : List Mem} (h : MInner inner ms) :
+    ∀ m ∈ ms, (∃ pre post, inner = pre ++ strBytes m.1 ++ post) ∧ (∃ pre post, inner = pre ++ m.2.2 ++ post) := by
+  cases ms with
+  | nil => intro m hm; simp at hm
+  | cons m0 ms =>
+    obtain ⟨k, s, c⟩ := m0
+    obtain ⟨w, w₃, w₄, tail, _, _, _, rfl, ht⟩ := h
+    intro m hm
+    simp only [List.mem_cons] at hm
+    rcases hm with rfl | hm
+    · exact ⟨⟨w, w₃ ++ [0x3a] ++ w₄ ++ c ++ tail, by simp⟩, ⟨w ++ strBytes k ++ w₃ ++ [0x3a] ++ w₄, tail, by simp⟩⟩
+    · obtain ⟨⟨p1, q1, h1⟩, ⟨p2, q2, h2⟩⟩ := mtail_mem_split ht m hm
+      refine ⟨⟨w ++ strBytes k ++ w₃ ++ [0x3a] ++ w₄ ++ c ++ p1, q1, ?_⟩,
+        ⟨w ++ strBytes k ++ w₃ ++ [0x3a] ++ w₄ ++ c ++ p2, q2, ?_⟩⟩
+      · rw [h1]; simp
+      · rw [h2]; simp
+
+open SJ.Proofs.RawMap SJ.Proofs.RawKey SJ.Spec.Grammar in
+/-- on valid UTF-8 input the entries that the `&str` source accepts pass the byte sources' UTF-8 checks
+    (the key: its literal is valid UTF-8, hence so is its decoding; the value: as for array elements) -/
+theorem memOK_of_valid (env env' : SJ.Model.Typed.Env) (w₀ inner w₃ : Bytes) (ms : List Mem)
+    (hv : validUtf8 (w₀ ++ [0x7b] ++ inner ++ [0x7d] ++ w₃) = true) (hin : MInner inner ms)
+    (hcap : ∀ m ∈ ms, MemOK env m) : ∀ m ∈ ms, MemOK env' m := by
+  intro m hm
+  obtain ⟨hk, ⟨t, hd⟩, _⟩ := hcap m hm
+  obtain ⟨⟨p1, q1, h1⟩, ⟨p2, q2, h2⟩⟩ := minner_mem_split hin m hm
+  refine ⟨⟨hk.wf, hk.dec, hk.sur, fun _ => ?_⟩, ⟨t, hd⟩, fun _ => ?_⟩
+  · have hraw : validUtf8 (strBytes m.1) = true :=
+      derives_valid_in_context (Derives.str m.1 hk.wf) (w₀ ++ [0x7b] ++ p1) (q1 ++ [0x7d] ++ w₃)
+        (by rw [h1] at hv; simpa [List.append_assoc] using hv)
+    have := SJ.Proofs.Utf8.stringsUtf8_str m.1 hk.wf hk.sur hraw
+    rw [hk.dec] at this
+    simpa using this
+  · exact derives_valid_in_context hd (w₀ ++ [0x7b] ++ p2) (q2 ++ [0x7d] ++ w₃)
+      (by rw [h2] at hv; simpa [List.append_assoc] using hv)
 
 end SJ.Proofs.RawSources
